@@ -138,8 +138,15 @@ def main():
                     chk.violation(clean + 'spurious-deadlock: the network determines that main completes', files, info)
             elif o == 'ok':
                 if net['srsw'] and not model_done:
-                    chk.violation('missed-deadlock: main cannot complete in this network but the program exited normally',
-                                  files, info)
+                    early = [pr for pr in run['problems'] if pr[0] == 'sync-sender-early']
+                    if early:
+                        # the history itself shows why main got through: a synchronous send returned although nobody
+                        # received the value (C07's finding D16); the missed deadlock is its consequence
+                        chk.violation('sync-sender-early: %s (main then ran to its end although the network deadlocks)' % early[0][1],
+                                      files, info)
+                    else:
+                        chk.violation('missed-deadlock: main cannot complete in this network but the program exited normally',
+                                      files, info)
                 if 'E main end' not in run['stdout']:
                     chk.violation('early-exit: normal exit without main reaching its end', files, info)
             else:
